@@ -354,11 +354,19 @@ open Lean Elab Command in
                 if t[1] in m["ops"] and m["token"] in t[2:]:
                     return k
                 continue
-            if t[1] != m["op"]:
-                continue
-            nn = int(t[m["n_index"]])
-            if m["n_min"] <= nn <= m["n_max"] and out.startswith(m["impl_prefix"]):
-                return k
+            for c in [m] + list(m.get("also", [])):
+                if t[1] != c["op"] or len(t) <= c["n_index"]:
+                    continue
+                try:
+                    nn = int(t[c["n_index"]])
+                except ValueError:
+                    continue
+                if not (c["n_min"] <= nn <= c["n_max"]):
+                    continue
+                if "token" in c and t[c["token_index"]] != c["token"]:
+                    continue
+                if ("impl_exact" in c and out == c["impl_exact"]) or ("impl_prefix" in c and out.startswith(c["impl_prefix"])):
+                    return k
         return None
 
     # ------------------------------------------------------------------ shrinking
